@@ -1307,7 +1307,11 @@ class Deme:
             N = epoch.start_size + (epoch.end_size - epoch.start_size) * dt
         else:
             raise NotImplementedError(f"unknown size_function '{epoch.size_function}'")
-        return N
+        # Rounding in the interpolation must not take the size outside the
+        # range spanned by the epoch's start and end sizes.
+        lo = min(epoch.start_size, epoch.end_size)
+        hi = max(epoch.start_size, epoch.end_size)
+        return min(max(N, lo), hi)
 
 
 @attr.s(auto_attribs=True, kw_only=True, slots=True)
